@@ -5,7 +5,7 @@ det = {}
 for f in sorted(glob.glob("/verif/seeded/_matrix/*.txt")):
     for l in open(f):
         p = l.split()
-        if len(p) >= 3 and re.match(r"C\d\d-\d$", p[0]):
+        if len(p) >= 3 and re.match(r"C\d\d-\d+$", p[0]):
             det.setdefault(p[0], {})
             if p[2] == "DETECTED":
                 det[p[0]][p[1]] = l.split("violation:", 1)[1].strip()[:160] if "violation:" in l else "detected"
